@@ -296,6 +296,40 @@ def _run(ck, m):
               'the %d send(s) of %s are decided by the lookup in Watchers.map and the iteration only' % (len(sends_), short(b.id)) if okf else
               '%s: a committed change can be withheld from a registered watcher: %s' % (short(b.id), sorted(set(bad))[:4]), '%s:%s' % (b.file, b.line))
     ck.floor('C03.k', nk, 1, 'pure notifier bodies')
+    # ---- (l) the receivers of a notification are the watchers registered under exactly the changed key
+    ck.rule('C03.l', 'a change is announced to the watchers of THAT key: the senders a pure notifier sends through come from an exact lookup of the key '
+                     'in Watchers.map (HashMap::get), never from a walk over the whole map with a matcher — "pattern watches" matched with the '
+                     'listing\'s fallback (contains) deliver the changes of `user-1` to the watchers of `user`, `use`, `u` ...')
+    WM = 'std::collections::HashMap::<std::string::String, std::vec::Vec<futures::futures_channel::mpsc::Sender<std::string::String>>>::'
+    nl_ = 0
+    for nid in sorted(notifiers):
+        b = P.bodies[nid]
+        if any(mode == 'W' and l == 'Database.map' for l, mode in S.get(nid, ())):
+            continue
+        sends_ = [bi for bi, t in b.calls() if is_send(t)]
+        if not sends_:
+            continue
+        nl_ += 1
+        bad = []
+        exact = 0
+        for sb in sends_:
+            calls_, _p = locks.backward_slice(b, b.term(sb)['args'][0])
+            for c in calls_:
+                da = b.term(c)['f'].get('dargs', '')
+                if da.startswith(WM):
+                    leaf = da[len(WM):].split('<')[0].split('::')[0]
+                    if leaf in ('get', 'get_key_value'):
+                        exact += 1
+                    elif leaf in ('iter', 'values', 'keys', 'iter_mut', 'values_mut', 'into_iter', 'drain'):
+                        bad.append('%s (%s)' % (leaf, b.loc(c)))
+                elif 'IntoIterator' in callee_decl(b.term(c)) and 'HashMap<std::string::String, std::vec::Vec<' in da:
+                    bad.append('into_iter over the map (%s)' % b.loc(c))
+        okl = exact > 0 and not bad
+        ck.ob('C03.l', short(b.id), 'receivers-by-exact-key-lookup', okl,
+              'the senders of %s come from HashMap::get on Watchers.map' % short(b.id) if okl else
+              '%s sends through senders found by walking Watchers.map (%s; exact lookups: %d): watchers of other keys receive the change'
+              % (short(b.id), sorted(set(bad)), exact), '%s:%s' % (b.file, b.line))
+    ck.floor('C03.l', nl_, 1, 'pure notifier bodies')
     # who may notify: only the three mutators (and the notifier's own helpers) call a pure notifier — a notification sent from anywhere
     # else announces a change that was not stored
     from props.C02 import store_fn as _st, increment_fn as _inc, remover_fn as _rem
